@@ -2276,3 +2276,34 @@ def c17_enum_existing(rng, n):
         out.append(Item('struct', 'S', 'named', '', [trait_attr(rng.choice(['owned_into', 'into', 'try_into']), 'D', '', 'Er', 'return mk(@)')],
                         [Field('a', 'i32'), Field('p', 'P', [Attr('parent')])], {'gen': 'c17_qret_parent'}))
     return out
+
+
+# ---------------------------------------------------------------------------------------------
+# C19: inputs on which an iteration over an unordered container could show: several open trait-level
+# repeat() templates that cover a later, narrower instruction; several simultaneous diagnostics
+# ---------------------------------------------------------------------------------------------
+def c19_cases(rng, n):
+    out = []
+    families = [(['from', 'map_owned', 'map'], ['from_owned']), (['into', 'map', 'map_owned'], ['owned_into']), (['into', 'map', 'map_ref'], ['ref_into']),
+                (['from', 'map', 'map_ref'], ['from_ref']), (['try_from', 'try_map_owned', 'try_map'], ['try_from_owned']),
+                (['try_into', 'try_map'], ['owned_try_into', 'ref_try_into']), (['into_existing'], ['owned_into_existing', 'ref_into_existing'])]
+    tails = ['return mk(@)', 'return other(@)', 'vars(k: { 1 })', 'vars(j: { 2 }), return third(@)', '..base()']
+    for i in range(n):
+        wide, narrow = rng.choice(families)
+        ws = rng.sample(wide, min(len(wide), rng.choice([2, 2, 3])))
+        attrs = []
+        cps = ['A', 'B', 'C', 'D', 'F', 'G']
+        rng.shuffle(cps)
+        for j, w in enumerate(ws):
+            attrs.append(trait_attr(w, cps[j], '', 'Er', 'repeat(), ' + tails[j % len(tails)] if rng.random() < 0.9 else tails[j % len(tails)]))
+        for j, nm in enumerate(rng.sample(narrow, rng.choice([1, len(narrow)]))):
+            attrs.append(trait_attr(nm, cps[3 + j], '', 'Er', rng.choice(['', '', 'skip_repeat'])))
+        if rng.random() < 0.3:
+            rng.shuffle(attrs)
+        fields = [Field('a', 'i32'), Field('b', 'i16', [Attr('map', 'bb')] if rng.random() < 0.5 else [])]
+        if rng.random() < 0.3:
+            # several faults at once: the diagnostics come out of a map
+            fields[0].attrs += [Attr('map', 'x', ded='Zzz'), Attr('ghost', None, ded=None) if rng.random() < 0.5 else Attr('child', 'p.q')]
+            attrs.append(Attr('where_clause', 'T: Clone', ded='Yyy'))
+        out.append(Item('struct', 'S', 'named', '', attrs, fields, {'gen': 'c19'}))
+    return out
